@@ -244,7 +244,13 @@ def check_bcrypt_hash(pw, cost, salt, acc, exp=None):
         out = "exc"
     else:
         acc.count("bcrypt/ok")
-        out = "ok" if cmp_bytes(acc, "C12/bcrypt", what, case, r[1], exp) else "bad"
+        got = r[1]
+        if isinstance(got, (bytes, bytearray)) and bytes(got) == exp:
+            out = "ok"
+        else:
+            out = "bad"
+            acc.violation("C12/bcrypt/wrong-bytes", "%s returned %r, the specification defines %r"
+                          % (what, got, exp), case)
     acc.seen("classes", ("bcrypt", cost, len(pwb), max(pwb) >= 0x80 if pwb else False, type(pw).__name__, out))
     acc.seen("outputs", digest8(exp))
     acc.sample({"part": "bcrypt", "password_len": len(pwb), "cost": cost, "salt": salt, "hash": exp.decode()})
